@@ -1,7 +1,881 @@
-From Coq Require Import List ZArith QArith Bool Arith Lia.
+(** Proofs about the structured-grid model FV.Grid (property C14). *)
+From Coq Require Import List ZArith QArith Bool Arith Lia Lqa.
 From FV Require Import Base Grid.
 Import ListNotations.
 Open Scope nat_scope.
 
-Lemma prod_nil : prod [] = 1.
-Proof. reflexivity. Qed.
+(** * Generic list helpers *)
+Lemma nth_map_gen {A B : Type} (f : A -> B) (l : list A) (n : nat) (d1 : B) (d2 : A) :
+  n < length l -> nth n (map f l) d1 = f (nth n l d2).
+Proof.
+  revert n. induction l as [|x l IH]; intros n Hn; simpl in *; [lia|].
+  destruct n; [reflexivity|]. apply IH. lia.
+Qed.
+
+Lemma nth_map_seq {B : Type} (f : nat -> B) (len n : nat) (d : B) :
+  n < len -> nth n (map f (seq 0 len)) d = f n.
+Proof.
+  intros Hn. rewrite (nth_map_gen f (seq 0 len) n d 0) by (rewrite seq_length; exact Hn).
+  rewrite seq_nth by exact Hn. reflexivity.
+Qed.
+
+Lemma Forall2_length' {A B : Type} (R : A -> B -> Prop) l1 l2 :
+  Forall2 R l1 l2 -> length l1 = length l2.
+Proof. induction 1; simpl; congruence. Qed.
+
+Lemma Forall2_app' {A B : Type} (R : A -> B -> Prop) l1 l2 m1 m2 :
+  Forall2 R l1 l2 -> Forall2 R m1 m2 -> Forall2 R (l1 ++ m1) (l2 ++ m2).
+Proof. induction 1; simpl; auto. Qed.
+
+Lemma Forall2_rev' {A B : Type} (R : A -> B -> Prop) l1 l2 :
+  Forall2 R l1 l2 -> Forall2 R (rev l1) (rev l2).
+Proof.
+  induction 1; simpl; [constructor|]. apply Forall2_app'; [assumption|]. constructor; [assumption|constructor].
+Qed.
+
+(** * Mixed-radix flattening *)
+Lemma prod_app l1 l2 : prod (l1 ++ l2) = prod l1 * prod l2.
+Proof. induction l1 as [|x l1 IH]; simpl; [lia|]. rewrite IH. lia. Qed.
+
+Lemma prod_rev l : prod (rev l) = prod l.
+Proof. induction l as [|x l IH]; simpl; [reflexivity|]. rewrite prod_app, IH. simpl. lia. Qed.
+
+Lemma inb_length sh idx : inb sh idx -> length idx = length sh.
+Proof. apply Forall2_length'. Qed.
+
+Lemma inb_rev sh idx : inb sh idx -> inb (rev sh) (rev idx).
+Proof. apply Forall2_rev'. Qed.
+
+Lemma flatC_lt sh idx : inb sh idx -> flatC sh idx < prod sh.
+Proof.
+  unfold inb. induction 1 as [|i n idx sh Hi _ IH]; simpl; [lia|]. nia.
+Qed.
+
+Lemma flatF_lt sh idx : inb sh idx -> flatF sh idx < prod sh.
+Proof.
+  unfold inb. induction 1 as [|i n idx sh Hi _ IH]; simpl; [lia|]. nia.
+Qed.
+
+Lemma unflatC_flatC sh idx : inb sh idx -> unflatC sh (flatC sh idx) = idx.
+Proof.
+  unfold inb. induction 1 as [|i n idx sh Hi H IH]; simpl; [reflexivity|].
+  pose proof (flatC_lt sh idx H) as Hlt.
+  assert (Hp : prod sh <> 0) by lia.
+  rewrite Nat.div_add_l by exact Hp. rewrite (Nat.div_small _ _ Hlt).
+  rewrite (Nat.add_comm (i * prod sh)), Nat.mod_add by exact Hp. rewrite (Nat.mod_small _ _ Hlt).
+  rewrite IH. f_equal. lia.
+Qed.
+
+Lemma unflatF_flatF sh idx : inb sh idx -> unflatF sh (flatF sh idx) = idx.
+Proof.
+  unfold inb. induction 1 as [|i n idx sh Hi H IH]; simpl; [reflexivity|].
+  assert (Hn : n <> 0) by lia.
+  rewrite (Nat.mul_comm n), Nat.mod_add by exact Hn. rewrite (Nat.mod_small _ _ Hi).
+  rewrite Nat.div_add by exact Hn. rewrite (Nat.div_small _ _ Hi). simpl.
+  rewrite IH. reflexivity.
+Qed.
+
+Lemma flatC_unflatC sh : forall n, n < prod sh -> flatC sh (unflatC sh n) = n.
+Proof.
+  induction sh as [|d sh IH]; intros n Hn; simpl in *; [lia|].
+  assert (Hp : prod sh <> 0) by (intros E; rewrite E in Hn; lia).
+  rewrite IH by (apply Nat.mod_upper_bound; exact Hp).
+  pose proof (Nat.div_mod_eq n (prod sh)). lia.
+Qed.
+
+Lemma flatF_unflatF sh : forall n, n < prod sh -> flatF sh (unflatF sh n) = n.
+Proof.
+  induction sh as [|d sh IH]; intros n Hn; simpl in *; [lia|].
+  assert (Hd : d <> 0) by (intros E; rewrite E in Hn; lia).
+  rewrite IH.
+  - pose proof (Nat.div_mod_eq n d). lia.
+  - apply Nat.div_lt_upper_bound; [exact Hd|exact Hn].
+Qed.
+
+Lemma unflatC_inb sh : forall n, n < prod sh -> inb sh (unflatC sh n).
+Proof.
+  unfold inb. induction sh as [|d sh IH]; intros n Hn; simpl in *; [constructor|].
+  assert (Hp : prod sh <> 0) by (intros E; rewrite E in Hn; lia).
+  constructor.
+  - apply Nat.div_lt_upper_bound; [exact Hp|lia].
+  - apply IH. apply Nat.mod_upper_bound. exact Hp.
+Qed.
+
+Lemma unflatF_inb sh : forall n, n < prod sh -> inb sh (unflatF sh n).
+Proof.
+  unfold inb. induction sh as [|d sh IH]; intros n Hn; simpl in *; [constructor|].
+  assert (Hd : d <> 0) by (intros E; rewrite E in Hn; lia).
+  constructor.
+  - apply Nat.mod_upper_bound. exact Hd.
+  - apply IH. apply Nat.div_lt_upper_bound; [exact Hd|exact Hn].
+Qed.
+
+Lemma flatF_app sh1 : forall idx1 n i, length idx1 = length sh1 ->
+  flatF (sh1 ++ [n]) (idx1 ++ [i]) = flatF sh1 idx1 + prod sh1 * i.
+Proof.
+  induction sh1 as [|d sh1 IH]; intros idx1 n i Hl; destruct idx1 as [|j idx1]; simpl in *; try lia.
+  rewrite IH by lia. lia.
+Qed.
+
+(** numpy: C-order flattening is F-order flattening of the transposed array *)
+Lemma flatC_rev sh : forall idx, length idx = length sh -> flatC sh idx = flatF (rev sh) (rev idx).
+Proof.
+  induction sh as [|d sh IH]; intros idx Hl; destruct idx as [|i idx]; simpl in *; try lia.
+  rewrite flatF_app by (rewrite !rev_length; lia).
+  rewrite <- IH by lia. rewrite prod_rev. lia.
+Qed.
+
+Lemma flatF_rev sh idx : length idx = length sh -> flatF sh idx = flatC (rev sh) (rev idx).
+Proof.
+  intros Hl. rewrite flatC_rev by (rewrite !rev_length; exact Hl). rewrite !rev_involutive. reflexivity.
+Qed.
+
+Lemma flat_lt c sh idx : inb sh idx -> flat c sh idx < prod sh.
+Proof. destruct c; [apply flatC_lt|apply flatF_lt]. Qed.
+
+Lemma unflat_flat c sh idx : inb sh idx -> unflat c sh (flat c sh idx) = idx.
+Proof. destruct c; [apply unflatC_flatC|apply unflatF_flatF]. Qed.
+
+Lemma flat_unflat c sh n : n < prod sh -> flat c sh (unflat c sh n) = n.
+Proof. destruct c; [apply flatC_unflatC|apply flatF_unflatF]. Qed.
+
+Lemma unflat_inb c sh n : n < prod sh -> inb sh (unflat c sh n).
+Proof. destruct c; [apply unflatC_inb|apply unflatF_inb]. Qed.
+
+(** flattening in one order = flattening the reversed index of the reversed shape in the other *)
+Lemma flat_rev c sh idx : length idx = length sh -> flat c (rev sh) idx = flat (negb c) sh (rev idx).
+Proof.
+  intros Hl. destruct c; simpl.
+  - rewrite flatC_rev by (rewrite rev_length; exact Hl). rewrite rev_involutive. reflexivity.
+  - rewrite flatF_rev by (rewrite rev_length; exact Hl). rewrite rev_involutive. reflexivity.
+Qed.
+
+(** * Points *)
+Lemma coords_length axes : forall idx, length idx = length axes -> length (coords axes idx) = length axes.
+Proof.
+  induction axes as [|ax axes IH]; intros idx Hl; destruct idx; simpl in *; try lia. rewrite IH; lia.
+Qed.
+
+Lemma coords_app a1 : forall i1 a2 i2, length i1 = length a1 ->
+  coords (a1 ++ a2) (i1 ++ i2) = coords a1 i1 ++ coords a2 i2.
+Proof.
+  induction a1 as [|ax a1 IH]; intros i1 a2 i2 Hl; destruct i1; simpl in *; try lia; [reflexivity|].
+  rewrite IH by lia. reflexivity.
+Qed.
+
+Lemma coords_rev axes : forall idx, length idx = length axes ->
+  coords axes (rev idx) = rev (coords (rev axes) idx).
+Proof.
+  induction axes as [|ax axes IH]; intros idx Hl.
+  - destruct idx; simpl in *; try lia. reflexivity.
+  - destruct (rev idx) as [|i ridx] eqn:E.
+    + apply (f_equal (@length nat)) in E. rewrite rev_length in E. simpl in *. lia.
+    + assert (Hidx : idx = rev ridx ++ [i]).
+      { rewrite <- (rev_involutive idx), E. reflexivity. }
+      subst idx. simpl. rewrite app_length, rev_length in Hl. simpl in Hl.
+      rewrite coords_app by (rewrite !rev_length; lia).
+      rewrite rev_app_distr. simpl.
+      rewrite <- IH by (rewrite rev_length; lia). rewrite rev_involutive. reflexivity.
+Qed.
+
+Lemma gen_points_length axes c inc :
+  length (gen_points axes c inc) = prod (map (@length Q) (dir_axes inc axes)).
+Proof. unfold gen_points. rewrite map_length, seq_length. reflexivity. Qed.
+
+Lemma gen_points_nth axes c inc idx :
+  inb (map (@length Q) (dir_axes inc axes)) idx ->
+  nth (flat c (map (@length Q) (dir_axes inc axes)) idx) (gen_points axes c inc) [] =
+  coords (dir_axes inc axes) idx.
+Proof.
+  intros Hin. unfold gen_points.
+  rewrite nth_map_seq by (apply flat_lt; exact Hin).
+  rewrite unflat_flat by exact Hin. reflexivity.
+Qed.
+
+Lemma dir_axes_lengths inc : forall axes,
+  map (@length Q) (dir_axes inc axes) = map (@length Q) axes.
+Proof.
+  induction inc as [|b inc IH]; intros axes; destruct axes as [|ax axes]; simpl; try reflexivity.
+  rewrite IH. destruct b; [reflexivity|]. rewrite rev_length. reflexivity.
+Qed.
+
+Lemma mids_length ax : length (mids ax) = length ax - 1.
+Proof.
+  induction ax as [|a ax IH]; simpl; [reflexivity|].
+  destruct ax as [|b ax]; simpl in *; [reflexivity|]. rewrite IH. lia.
+Qed.
+
+Lemma cell_axis_length ax : 1 <= length ax -> length (cell_axis ax) = Nat.max (length ax - 1) 1.
+Proof.
+  intros H. unfold cell_axis. destruct (1 <? length ax) eqn:E.
+  - apply Nat.ltb_lt in E. rewrite mids_length. lia.
+  - apply Nat.ltb_ge in E. lia.
+Qed.
+
+Lemma cell_axes_lengths g : wf_grid g -> map (@length Q) (cell_axes g) = cshape_of (dims g).
+Proof.
+  intros [_ Hax]. unfold cell_axes, cshape_of, dims. rewrite !map_map.
+  apply map_ext_in. intros ax Hin. rewrite Forall_forall in Hax.
+  apply cell_axis_length. apply Hax. exact Hin.
+Qed.
+
+Lemma cshape_of_rev l : cshape_of (rev l) = rev (cshape_of l).
+Proof. unfold cshape_of. apply map_rev. Qed.
+
+(** shape of the located axes, in xyz order *)
+Definition loc_shape (g : grid) : list nat := if g_pts g then dims g else cshape_of (dims g).
+
+Lemma loc_axes_lengths g : wf_grid g -> map (@length Q) (dir_axes (g_inc g) (loc_axes g)) = loc_shape g.
+Proof.
+  intros Hwf. rewrite dir_axes_lengths. unfold loc_axes, loc_shape.
+  destruct (g_pts g); [reflexivity|]. apply cell_axes_lengths. exact Hwf.
+Qed.
+
+Lemma data_shape_loc g : data_shape g = mrev (g_rev g) (loc_shape g).
+Proof.
+  unfold data_shape, loc_shape, mrev. destruct (g_rev g), (g_pts g); try reflexivity.
+  apply cshape_of_rev.
+Qed.
+
+Lemma data_points_gen g : data_points g = gen_points (loc_axes g) (point_order g) (g_inc g).
+Proof. unfold data_points, loc_axes, points, cell_centers. destruct (g_pts g); reflexivity. Qed.
+
+Lemma data_points_length g : wf_grid g -> length (data_points g) = data_size g.
+Proof.
+  intros Hwf. rewrite data_points_gen, gen_points_length, loc_axes_lengths by exact Hwf.
+  unfold data_size. rewrite data_shape_loc. unfold mrev. destruct (g_rev g); [|reflexivity].
+  rewrite prod_rev. reflexivity.
+Qed.
+
+(** C14_index_coord *)
+Theorem index_coord g i :
+  wf_grid g -> inb (data_shape g) i ->
+  flat (g_c g) (data_shape g) i < length (data_points g) /\
+  nth (flat (g_c g) (data_shape g) i) (data_points g) [] = coord_at g i.
+Proof.
+  intros Hwf Hin. split.
+  { rewrite data_points_length by exact Hwf. apply flat_lt. exact Hin. }
+  pose proof (loc_axes_lengths g Hwf) as Hlen.
+  rewrite data_points_gen. unfold coord_at, data_axes. rewrite data_shape_loc in *.
+  unfold point_order, mrev in *. destruct (g_rev g).
+  - assert (Hl : length i = length (loc_shape g)).
+    { apply inb_length in Hin. rewrite rev_length in Hin. exact Hin. }
+    rewrite flat_rev by exact Hl.
+    assert (Hin' : inb (loc_shape g) (rev i)).
+    { apply inb_rev in Hin. rewrite rev_involutive in Hin. exact Hin. }
+    rewrite <- Hlen in Hin' |- *.
+    rewrite gen_points_nth by exact Hin'.
+    apply coords_rev. rewrite Hl, <- Hlen, map_length. reflexivity.
+  - rewrite <- Hlen in Hin |- *. apply gen_points_nth. exact Hin.
+Qed.
+
+(** * Cells *)
+(** squeeze: the entries of an index at the non-degenerate axes *)
+Fixpoint sqz (dms x : list nat) : list nat :=
+  match dms, x with
+  | d :: r, i :: s => if nondeg d then i :: sqz r s else sqz r s
+  | _, _ => []
+  end.
+
+(** a shape over the non-degenerate axes put back into all axes (1 on length-1 axes) *)
+Fixpoint exp1 (dms s : list nat) : list nat :=
+  match dms with
+  | [] => []
+  | d :: r => if nondeg d
+              then match s with i :: t => i :: exp1 r t | [] => 1 :: exp1 r [] end
+              else 1 :: exp1 r s
+  end.
+
+Definition mdim (dms : list nat) : nat := length (filter nondeg dms).
+
+Lemma nondeg_true d : nondeg d = true <-> 2 <= d.
+Proof. unfold nondeg. rewrite Nat.ltb_lt. lia. Qed.
+Lemma nondeg_false d : nondeg d = false <-> d <= 1.
+Proof. unfold nondeg. rewrite Nat.ltb_ge. lia. Qed.
+
+Lemma cdim_length dms : length (cdim_of dms) = mdim dms.
+Proof. unfold cdim_of, mdim. apply map_length. Qed.
+
+Lemma cshape_exp1 dms : Forall (fun d => 1 <= d) dms -> cshape_of dms = exp1 dms (cdim_of dms).
+Proof.
+  induction 1 as [|d dms Hd _ IH]; [reflexivity|].
+  unfold cshape_of, cdim_of in *. simpl. destruct (nondeg d) eqn:E; simpl; rewrite IH.
+  - apply nondeg_true in E. f_equal. lia.
+  - apply nondeg_false in E. f_equal. lia.
+Qed.
+
+Lemma dims_exp1 dms : Forall (fun d => 1 <= d) dms -> dms = exp1 dms (map S (cdim_of dms)).
+Proof.
+  induction 1 as [|d dms Hd _ IH]; [reflexivity|].
+  unfold cdim_of in *. simpl. destruct (nondeg d) eqn:E; simpl; rewrite <- IH.
+  - apply nondeg_true in E. f_equal. lia.
+  - apply nondeg_false in E. f_equal. lia.
+Qed.
+
+Lemma prod_exp1 dms : forall s, length s = mdim dms -> prod (exp1 dms s) = prod s.
+Proof.
+  unfold mdim. induction dms as [|d dms IH]; intros s Hl; simpl in *.
+  - destruct s; simpl in *; [reflexivity|lia].
+  - destruct (nondeg d); simpl in *.
+    + destruct s as [|i t]; simpl in *; [lia|]. rewrite IH by lia. reflexivity.
+    + rewrite IH by exact Hl. lia.
+Qed.
+
+Lemma flatF_embed dms : forall s x, length s = mdim dms -> length x = mdim dms ->
+  flatF (exp1 dms s) (embed dms x) = flatF s x.
+Proof.
+  unfold mdim. induction dms as [|d dms IH]; intros s x Hs Hx; simpl in *.
+  - destruct s, x; simpl in *; lia.
+  - destruct (nondeg d); simpl in *.
+    + destruct s as [|n t], x as [|i y]; simpl in *; try lia. rewrite IH by lia. reflexivity.
+    + rewrite IH by assumption. lia.
+Qed.
+
+Lemma flatC_embed dms : forall s x, length s = mdim dms -> length x = mdim dms ->
+  flatC (exp1 dms s) (embed dms x) = flatC s x.
+Proof.
+  induction dms as [|d dms IH]; intros s x Hs Hx; unfold mdim in *; simpl in *.
+  - destruct s, x; simpl in *; lia.
+  - destruct (nondeg d); simpl in *.
+    + destruct s as [|n t], x as [|i y]; simpl in *; try lia.
+      rewrite IH by lia. rewrite (prod_exp1 dms t) by (unfold mdim; lia). reflexivity.
+    + rewrite IH by assumption. lia.
+Qed.
+
+Lemma flat_embed c dms s x : length s = mdim dms -> length x = mdim dms ->
+  flat c (exp1 dms s) (embed dms x) = flat c s x.
+Proof. destruct c; [apply flatC_embed|apply flatF_embed]. Qed.
+
+Lemma inb_embed dms : forall s x, length s = mdim dms -> inb s x -> inb (exp1 dms s) (embed dms x).
+Proof.
+  unfold inb, mdim. induction dms as [|d dms IH]; intros s x Hs Hin; simpl in *; [constructor|].
+  destruct (nondeg d); simpl in *.
+  - destruct Hin as [|i n y t Hi Hin]; simpl in *; [lia|]. constructor; [exact Hi|]. apply IH; [lia|exact Hin].
+  - constructor; [lia|]. apply IH; assumption.
+Qed.
+
+Lemma embed_sqz dms : forall ci, Forall (fun d => 1 <= d) dms -> inb (cshape_of dms) ci ->
+  embed dms (sqz dms ci) = ci.
+Proof.
+  unfold inb, cshape_of. induction dms as [|d dms IH]; intros ci Hd Hin; simpl in *.
+  - inversion Hin. reflexivity.
+  - inversion Hin as [|i n y t Hi Hin' E1 E2]; subst. inversion Hd as [|? ? Hd1 Hd']; subst.
+    simpl. destruct (nondeg d) eqn:E; simpl; rewrite IH by assumption; [reflexivity|].
+    apply nondeg_false in E. f_equal. lia.
+Qed.
+
+Lemma sqz_inb dms : forall ci, inb (cshape_of dms) ci -> inb (cdim_of dms) (sqz dms ci).
+Proof.
+  unfold inb, cshape_of, cdim_of. induction dms as [|d dms IH]; intros ci Hin; simpl in *.
+  - inversion Hin. constructor.
+  - inversion Hin as [|i n y t Hi Hin' E1 E2]; subst. simpl.
+    destruct (nondeg d) eqn:E; simpl; [|apply IH; exact Hin'].
+    apply nondeg_true in E. constructor; [lia|apply IH; exact Hin'].
+Qed.
+
+Lemma addi_embed dms : forall x y, length x = mdim dms -> length y = mdim dms ->
+  addi (embed dms x) (embed dms y) = embed dms (addi x y).
+Proof.
+  unfold mdim. induction dms as [|d dms IH]; intros x y Hx Hy; simpl in *; [reflexivity|].
+  destruct (nondeg d); simpl in *.
+  - destruct x as [|i x], y as [|j y]; simpl in *; try lia. rewrite IH by lia. reflexivity.
+  - rewrite IH by assumption. reflexivity.
+Qed.
+
+Lemma addi_length x : forall y, length x = length y -> length (addi x y) = length x.
+Proof. induction x as [|i x IH]; intros y Hl; destruct y; simpl in *; try lia. rewrite IH; lia. Qed.
+
+Lemma addi_inb cd : forall si off, inb cd si -> Forall (fun o => o <= 1) off -> length off = length cd ->
+  inb (map S cd) (addi si off).
+Proof.
+  unfold inb. induction cd as [|n cd IH]; intros si off Hin Ho Hl.
+  - inversion Hin; subst. destruct off; simpl in *; [constructor|lia].
+  - inversion Hin as [|i n' y t Hi Hin' E1 E2]; subst. destruct off as [|o off]; simpl in *; [lia|].
+    inversion Ho; subst. constructor; [lia|]. apply IH; [assumption|assumption|lia].
+Qed.
+
+Lemma corners_ok m : m <= 3 ->
+  Forall (fun off => length off = m /\ Forall (fun o => o <= 1) off) (corners m).
+Proof.
+  intros Hm. destruct m as [|[|[|[|m]]]]; [| | | |lia]; simpl;
+  repeat (constructor; [split; [reflexivity|repeat constructor]|]); constructor.
+Qed.
+
+Ltac list_nia :=
+  repeat match goal with |- _ :: _ = _ :: _ => apply (f_equal2 (@cons nat)); [nia|] end; try reflexivity.
+
+(** the F-order cell formulas on the non-degenerate axes *)
+Lemma cells_F_spec cd si :
+  length cd <= 3 -> inb cd si ->
+  nth (flatF cd si) (cells_F cd) [] = map (fun off => flatF (map S cd) (addi si off)) (corners (length cd)).
+Proof.
+  intros Hm Hin. pose proof (flatF_lt cd si Hin) as Hlt. unfold inb in Hin.
+  destruct cd as [|cx [|cy [|cz [|? ?]]]]; simpl in Hm; try lia.
+  - inversion Hin; subst. reflexivity.
+  - inversion Hin as [|i ? y t Hi Hin1]; subst. inversion Hin1; subst.
+    unfold cells_F. rewrite nth_map_seq by exact Hlt. simpl. list_nia.
+  - inversion Hin as [|i ? y t Hi Hin1]; subst. inversion Hin1 as [|j ? y' t' Hj Hin2]; subst.
+    inversion Hin2; subst.
+    unfold cells_F. rewrite nth_map_seq by exact Hlt. simpl in *.
+    assert (E : (i + cx * (j + cy * 0)) / cx = j).
+    { symmetry. apply (Nat.div_unique _ cx j i); [exact Hi|lia]. }
+    rewrite E. list_nia.
+  - inversion Hin as [|i ? y t Hi Hin1]; subst. inversion Hin1 as [|j ? y' t' Hj Hin2]; subst.
+    inversion Hin2 as [|k ? y'' t'' Hk Hin3]; subst. inversion Hin3; subst.
+    unfold cells_F. rewrite nth_map_seq by exact Hlt. simpl in *.
+    assert (E1 : (i + cx * (j + cy * (k + cz * 0))) / (cx * cy) = k).
+    { symmetry. apply (Nat.div_unique _ (cx * cy) k (i + cx * j)); nia. }
+    assert (E2 : (i + cx * (j + cy * (k + cz * 0))) mod (cx * cy) = i + cx * j).
+    { symmetry. apply (Nat.mod_unique _ (cx * cy) k (i + cx * j)); nia. }
+    assert (E3 : (i + cx * j) / cx = j).
+    { symmetry. apply (Nat.div_unique _ cx j i); [exact Hi|lia]. }
+    rewrite E1, E2, E3. list_nia.
+Qed.
+
+Lemma flat_rank1 sh idx : length sh <= 1 -> length idx = length sh -> flatC sh idx = flatF sh idx.
+Proof.
+  intros H1 H2. destruct sh as [|n [|? ?]], idx as [|i [|? ?]]; simpl in *; try lia.
+Qed.
+
+Lemma flat_dims_embed c dms x : Forall (fun d => 1 <= d) dms -> length x = mdim dms ->
+  flat c dms (embed dms x) = flat c (map S (cdim_of dms)) x.
+Proof.
+  intros Hd Hx.
+  pose proof (flat_embed c dms (map S (cdim_of dms)) x) as E.
+  rewrite <- (dims_exp1 dms Hd) in E. apply E; [|exact Hx].
+  rewrite map_length. apply cdim_length.
+Qed.
+
+Lemma flat_cshape_embed c dms x : Forall (fun d => 1 <= d) dms -> length x = mdim dms ->
+  flat c (cshape_of dms) (embed dms x) = flat c (cdim_of dms) x.
+Proof.
+  intros Hd Hx. rewrite (cshape_exp1 dms Hd). apply flat_embed; [apply cdim_length|exact Hx].
+Qed.
+
+Lemma inb_dims_embed dms x : Forall (fun d => 1 <= d) dms ->
+  inb (map S (cdim_of dms)) x -> inb dms (embed dms x).
+Proof.
+  intros Hd Hx. pose proof (inb_embed dms (map S (cdim_of dms)) x) as E.
+  rewrite <- (dims_exp1 dms Hd) in E. apply E; [|exact Hx].
+  rewrite map_length. apply cdim_length.
+Qed.
+
+(** corner [off] of the cell with (full) cell index [ci] is a valid node index *)
+Lemma corner_inb dms ci off :
+  Forall (fun d => 1 <= d) dms -> mdim dms <= 3 -> inb (cshape_of dms) ci -> In off (corners (mdim dms)) ->
+  addi ci (embed dms off) = embed dms (addi (sqz dms ci) off) /\
+  inb (map S (cdim_of dms)) (addi (sqz dms ci) off) /\
+  inb dms (addi ci (embed dms off)).
+Proof.
+  intros Hd Hm Hci Hoff.
+  pose proof (corners_ok _ Hm) as Hc. rewrite Forall_forall in Hc. destruct (Hc off Hoff) as [Hlo Ho1].
+  pose proof (sqz_inb dms ci Hci) as Hsi.
+  assert (Hlsi : length (sqz dms ci) = mdim dms).
+  { rewrite (inb_length _ _ Hsi). apply cdim_length. }
+  assert (E : addi ci (embed dms off) = embed dms (addi (sqz dms ci) off)).
+  { rewrite <- (embed_sqz dms ci Hd Hci) at 1. apply addi_embed; assumption. }
+  assert (Hin : inb (map S (cdim_of dms)) (addi (sqz dms ci) off)).
+  { apply addi_inb; [exact Hsi|exact Ho1|]. rewrite cdim_length. exact Hlo. }
+  split; [exact E|]. split; [exact Hin|]. rewrite E. apply inb_dims_embed; assumption.
+Qed.
+
+(** C14_cells_valid, part 1: the nodes of every cell *)
+Theorem cells_corners dms c ci :
+  Forall (fun d => 1 <= d) dms -> mdim dms <= 3 -> inb (cshape_of dms) ci ->
+  nth (flat c (cshape_of dms) ci) (gen_cells dms c) [] =
+  map (fun off => flat c dms (addi ci (embed dms off))) (corners (mdim dms)).
+Proof.
+  intros Hd Hm Hci.
+  pose proof (sqz_inb dms ci Hci) as Hsi.
+  assert (Hlcd : length (cdim_of dms) = mdim dms) by apply cdim_length.
+  assert (Hlsi : length (sqz dms ci) = mdim dms).
+  { rewrite (inb_length _ _ Hsi). exact Hlcd. }
+  (* position *)
+  rewrite <- (embed_sqz dms ci Hd Hci) at 1.
+  rewrite flat_cshape_embed by assumption.
+  (* nodes *)
+  rewrite (map_ext_in _ (fun off => flat c (map S (cdim_of dms)) (addi (sqz dms ci) off))).
+  2:{ intros off Hoff. destruct (corner_inb dms ci off Hd Hm Hci Hoff) as [E [Hin _]].
+      rewrite E. apply flat_dims_embed; [exact Hd|].
+      rewrite (inb_length _ _ Hin), map_length. exact Hlcd. }
+  set (cd := cdim_of dms) in *. set (si := sqz dms ci) in *.
+  assert (Hm' : length cd <= 3) by lia.
+  unfold gen_cells. fold cd. rewrite <- Hlcd.
+  destruct c; simpl andb; simpl flat; [|apply cells_F_spec; assumption].
+  destruct (1 <? length cd) eqn:E1.
+  - (* reordered *)
+    rewrite nth_map_seq by (apply flatC_lt; exact Hsi).
+    rewrite unflatC_flatC by exact Hsi.
+    rewrite (nth_map_gen _ (cells_F cd) _ [] []).
+    2:{ assert (length (cells_F cd) = prod cd) as ->.
+        { unfold cells_F. destruct cd as [|? [|? [|? ?]]]; simpl in E1; try discriminate;
+          rewrite map_length, seq_length; reflexivity. }
+        apply flatF_lt. exact Hsi. }
+    rewrite cells_F_spec by assumption. rewrite map_map.
+    apply map_ext_in. intros off Hoff. rewrite Hlcd in Hoff.
+    destruct (corner_inb dms ci off Hd Hm Hci Hoff) as [E [Hin Hin2]].
+    fold cd si in Hin, E.
+    assert (Hlx : length (addi si off) = mdim dms).
+    { rewrite (inb_length _ _ Hin), map_length. exact Hlcd. }
+    pose proof (flat_dims_embed false dms (addi si off) Hd Hlx) as EF. simpl in EF. fold cd in EF.
+    pose proof (flat_dims_embed true dms (addi si off) Hd Hlx) as EC. simpl in EC. fold cd in EC.
+    rewrite <- EF, <- EC. rewrite unflatF_flatF; [reflexivity|].
+    rewrite <- E. exact Hin2.
+  - apply Nat.ltb_ge in E1.
+    rewrite (flat_rank1 cd si) by (try exact E1; apply (inb_length _ _ Hsi)).
+    rewrite cells_F_spec by assumption.
+    apply map_ext_in. intros off Hoff. rewrite Hlcd in Hoff.
+    destruct (corner_inb dms ci off Hd Hm Hci Hoff) as [_ [Hin _]]. fold cd si in Hin.
+    symmetry. apply flat_rank1; [rewrite map_length; exact E1|apply (inb_length _ _ Hin)].
+Qed.
+
+Lemma cells_F_length cd : length (cells_F cd) = prod cd.
+Proof.
+  unfold cells_F. destruct cd as [|? [|? [|? ?]]]; try (rewrite map_length, seq_length); reflexivity.
+Qed.
+
+Lemma gen_cells_length dms c : Forall (fun d => 1 <= d) dms ->
+  length (gen_cells dms c) = prod (cshape_of dms).
+Proof.
+  intros Hd. rewrite (cshape_exp1 dms Hd), prod_exp1 by apply cdim_length.
+  unfold gen_cells. destruct (c && (1 <? length (cdim_of dms))).
+  - rewrite map_length, seq_length. reflexivity.
+  - apply cells_F_length.
+Qed.
+
+(** C14_cells_valid, part 2: every cell references existing points *)
+Theorem cells_in_range dms c :
+  Forall (fun d => 1 <= d) dms -> mdim dms <= 3 ->
+  Forall (Forall (fun p => p < prod dms)) (gen_cells dms c).
+Proof.
+  intros Hd Hm. apply Forall_forall. intros cell Hcell.
+  destruct (In_nth _ _ [] Hcell) as [n [Hn E]]. rewrite gen_cells_length in Hn by exact Hd.
+  pose proof (unflat_inb c _ _ Hn) as Hci.
+  rewrite <- (flat_unflat c _ _ Hn) in E.
+  rewrite cells_corners in E by assumption. subst cell.
+  apply Forall_forall. intros p Hp. apply in_map_iff in Hp. destruct Hp as [off [Ep Hoff]]. subst p.
+  apply flat_lt. apply (corner_inb dms _ off Hd Hm Hci Hoff).
+Qed.
+
+(** * Cell centres *)
+Lemma coords_nth axes : forall idx a, a < length axes -> length idx = length axes ->
+  nth a (coords axes idx) 0%Q = nth (nth a idx 0) (nth a axes []) 0%Q.
+Proof.
+  induction axes as [|ax axes IH]; intros idx a Ha Hl; destruct idx as [|i idx]; simpl in *; try lia.
+  destruct a; [reflexivity|]. apply IH; lia.
+Qed.
+
+Lemma addi_nth x : forall y a, a < length x -> length x = length y ->
+  nth a (addi x y) 0 = nth a x 0 + nth a y 0.
+Proof.
+  induction x as [|i x IH]; intros y a Ha Hl; destruct y as [|j y]; simpl in *; try lia.
+  destruct a; [reflexivity|]. apply IH; lia.
+Qed.
+
+Lemma embed_length dms : forall x, length (embed dms x) = length dms.
+Proof.
+  induction dms as [|d dms IH]; intros x; simpl; [reflexivity|].
+  destruct (nondeg d); [destruct x|]; simpl; rewrite IH; reflexivity.
+Qed.
+
+Lemma embed_nth dms : forall off a, a < length dms -> length off = mdim dms ->
+  nth a (embed dms off) 0 = if nondeg (nth a dms 0) then nth (mdim (firstn a dms)) off 0 else 0.
+Proof.
+  unfold mdim. induction dms as [|d dms IH]; intros off a Ha Hl; simpl in *; [lia|].
+  destruct a as [|a].
+  - simpl. destruct (nondeg d); [|reflexivity]. destruct off; reflexivity.
+  - simpl. destruct (nondeg d) eqn:E; simpl in *.
+    + destruct off as [|i s]; simpl in *; [lia|]. apply IH; lia.
+    + apply IH; [lia|exact Hl].
+Qed.
+
+Lemma pos_lt dms : forall a, a < length dms -> nondeg (nth a dms 0) = true ->
+  mdim (firstn a dms) < mdim dms.
+Proof.
+  unfold mdim. induction dms as [|d dms IH]; intros a Ha Hn; simpl in *; [lia|].
+  destruct a as [|a]; simpl in *.
+  - rewrite Hn. simpl. lia.
+  - specialize (IH a ltac:(lia) Hn). destruct (nondeg d); simpl; lia.
+Qed.
+
+Lemma dir_axes_nth inc : forall axes a, length inc = length axes -> a < length axes ->
+  nth a (dir_axes inc axes) [] = if nth a inc true then nth a axes [] else rev (nth a axes []).
+Proof.
+  induction inc as [|b inc IH]; intros axes a Hl Ha; destruct axes as [|ax axes]; simpl in *; try lia.
+  destruct a; [destruct b; reflexivity|]. apply IH; lia.
+Qed.
+
+Lemma mids_nth ax : forall i, i + 1 < length ax ->
+  nth i (mids ax) 0%Q = ((nth i ax 0 + nth (S i) ax 0) / 2)%Q.
+Proof.
+  induction ax as [|x ax IH]; intros i Hi; simpl in *; [lia|].
+  destruct ax as [|y ax]; simpl in *; [lia|].
+  destruct i; [reflexivity|]. apply (IH i). simpl. lia.
+Qed.
+
+Lemma inb_nth sh idx a : inb sh idx -> a < length sh -> nth a idx 0 < nth a sh 0.
+Proof.
+  unfold inb. intros H. revert a. induction H as [|i n idx sh Hi _ IH]; intros a Ha; simpl in *; [lia|].
+  destruct a; [exact Hi|]. apply IH. lia.
+Qed.
+
+Lemma qmean_corners m p (G : nat -> Q) : m <= 3 -> p < m ->
+  (qmean (map (fun off => G (nth p off 0%nat)) (corners m)) == (G 0%nat + G 1%nat) / 2)%Q.
+Proof.
+  intros Hm Hp. destruct m as [|[|[|[|m]]]]; try lia.
+  - destruct p; [|lia]. unfold qmean, qsum. simpl. field.
+  - destruct p as [|[|p]]; try lia; unfold qmean, qsum; simpl; field.
+  - destruct p as [|[|[|p]]]; try lia; unfold qmean, qsum; simpl; field.
+Qed.
+
+Lemma qmean_const m (K : Q) : m <= 3 ->
+  (qmean (map (fun _ : list nat => K) (corners m)) == K)%Q.
+Proof.
+  intros Hm. destruct m as [|[|[|[|m]]]]; try lia; unfold qmean, qsum; simpl; field.
+Qed.
+
+(** one axis: the (directed) cell axis is the midpoint of the two (directed) node coordinates *)
+Lemma cell_axis_mid (b : bool) ax i : 2 <= length ax -> i < length ax - 1 ->
+  (nth i (if b then cell_axis ax else rev (cell_axis ax)) 0 ==
+   (nth (i + 0) (if b then ax else rev ax) 0 + nth (i + 1) (if b then ax else rev ax) 0) / 2)%Q.
+Proof.
+  intros HL Hi. unfold cell_axis.
+  assert (E : 1 <? length ax = true) by (apply Nat.ltb_lt; lia). rewrite E.
+  rewrite Nat.add_0_r, Nat.add_1_r. destruct b.
+  - rewrite mids_nth by lia. reflexivity.
+  - rewrite rev_nth by (rewrite mids_length; lia). rewrite mids_length.
+    rewrite mids_nth by lia.
+    rewrite !rev_nth by lia.
+    replace (S (length ax - 1 - S i)) with (length ax - S i) by lia.
+    replace (length ax - S (S i)) with (length ax - 1 - S i) by lia.
+    field.
+Qed.
+
+Lemma dims_ge1 g : wf_grid g -> Forall (fun d => 1 <= d) (dims g).
+Proof.
+  intros [_ H]. unfold dims. apply Forall_forall. intros d Hd. apply in_map_iff in Hd.
+  destruct Hd as [ax [E Hax]]. subst d. rewrite Forall_forall in H. apply H. exact Hax.
+Qed.
+
+Lemma points_nth g e : inb (dims g) e ->
+  nth (flat (point_order g) (dims g) e) (points g) [] = coords (dir_axes (g_inc g) (g_axes g)) e.
+Proof.
+  intros He. pose proof (gen_points_nth (g_axes g) (point_order g) (g_inc g) e) as P.
+  rewrite dir_axes_lengths in P. apply P. exact He.
+Qed.
+
+Lemma cell_axes_nth l a : nth a (map cell_axis l) [] = cell_axis (nth a l []).
+Proof. exact (map_nth cell_axis l [] a). Qed.
+
+(** C14_centers_mean *)
+Theorem centers_mean g ci a :
+  wf_grid g -> mesh_dim g <= 3 -> inb (cshape_of (dims g)) ci -> a < gdim g ->
+  let n := flat (point_order g) (cshape_of (dims g)) ci in
+  n < length (cell_centers g) /\ n < length (node_centers g) /\
+  (nth a (nth n (cell_centers g) []) 0 == nth a (nth n (node_centers g) []) 0)%Q.
+Proof.
+  intros Hwf Hm Hci Ha n.
+  pose proof (dims_ge1 g Hwf) as Hd. destruct Hwf as [Hli Hax0]. assert (Hwf : wf_grid g) by (split; assumption).
+  assert (Hm' : mdim (dims g) <= 3) by exact Hm.
+  assert (Hldm : length (dims g) = gdim g) by (unfold dims, gdim; apply map_length).
+  pose proof (cell_axes_lengths g Hwf) as HCA.
+  assert (HCAd : map (@length Q) (dir_axes (g_inc g) (cell_axes g)) = cshape_of (dims g)).
+  { rewrite dir_axes_lengths. exact HCA. }
+  assert (Hn : n < prod (cshape_of (dims g))) by (apply flat_lt; exact Hci).
+  assert (Hlci : length ci = gdim g).
+  { rewrite (inb_length _ _ Hci). unfold cshape_of. rewrite map_length. exact Hldm. }
+  split; [|split].
+  { unfold cell_centers. rewrite gen_points_length, HCAd. exact Hn. }
+  { unfold node_centers, gen_node_centers. rewrite map_length. unfold cells.
+    rewrite gen_cells_length by exact Hd. exact Hn. }
+  (* left: the cell centre from the cell axes *)
+  assert (EL : nth n (cell_centers g) [] = coords (dir_axes (g_inc g) (cell_axes g)) ci).
+  { unfold cell_centers, n. rewrite <- HCAd. apply gen_points_nth. rewrite HCAd. exact Hci. }
+  rewrite EL.
+  rewrite coords_nth.
+  2:{ rewrite <- (map_length (@length Q)), HCAd. unfold cshape_of. rewrite map_length, Hldm. exact Ha. }
+  2:{ rewrite <- (map_length (@length Q) (dir_axes _ _)), HCAd. unfold cshape_of. rewrite map_length, Hldm. exact Hlci. }
+  (* right: mean of the nodes *)
+  unfold node_centers, gen_node_centers.
+  rewrite (nth_map_gen _ (cells g) n [] []) by (unfold cells; rewrite gen_cells_length by exact Hd; exact Hn).
+  unfold node_center. rewrite nth_map_seq by exact Ha.
+  unfold cells, n. rewrite cells_corners by assumption.
+  unfold col. rewrite !map_map.
+  set (A := dir_axes (g_inc g) (g_axes g)).
+  set (i := nth a ci 0).
+  set (ax := nth a (g_axes g) []).
+  assert (Hlax : nth a (dims g) 0 = length ax).
+  { unfold dims, ax. change 0 with (length (@nil Q)). apply map_nth. }
+  assert (Hi : i < Nat.max (length ax - 1) 1).
+  { pose proof (inb_nth _ _ a Hci) as P. unfold cshape_of in P. rewrite map_length, Hldm in P.
+    specialize (P Ha). rewrite (nth_map_gen _ (dims g) a 0 0) in P by (rewrite Hldm; exact Ha).
+    rewrite Hlax in P. exact P. }
+  assert (EA : nth a A [] = if nth a (g_inc g) true then ax else rev ax).
+  { unfold A. apply dir_axes_nth; [exact Hli|exact Ha]. }
+  assert (ECA : nth a (dir_axes (g_inc g) (cell_axes g)) [] =
+                if nth a (g_inc g) true then cell_axis ax else rev (cell_axis ax)).
+  { rewrite dir_axes_nth.
+    - unfold cell_axes, ax. rewrite cell_axes_nth. reflexivity.
+    - unfold cell_axes. rewrite map_length. exact Hli.
+    - unfold cell_axes. rewrite map_length. exact Ha. }
+  rewrite ECA.
+  destruct (nondeg (nth a (dims g) 0)) eqn:End.
+  - (* a proper axis: half of the corners on either side *)
+    set (p := mdim (firstn a (dims g))).
+    assert (Hp : p < mdim (dims g)) by (apply pos_lt; [rewrite Hldm; exact Ha|exact End]).
+    pose (G := fun t => nth (i + t) (nth a A []) 0%Q).
+    rewrite (map_ext_in _ (fun off => G (nth p off 0))).
+    2:{ intros off Hoff.
+        destruct (corner_inb (dims g) ci off Hd Hm' Hci Hoff) as [_ [_ He]].
+        rewrite points_nth by exact He. fold A.
+        pose proof (corners_ok _ Hm') as Hc. rewrite Forall_forall in Hc. destruct (Hc off Hoff) as [Hlo _].
+        rewrite coords_nth.
+        2:{ unfold A. rewrite <- (map_length (@length Q)), dir_axes_lengths. fold (dims g). rewrite Hldm. exact Ha. }
+        2:{ rewrite (inb_length _ _ He). unfold A.
+            rewrite <- (map_length (@length Q) (dir_axes _ _)), dir_axes_lengths. reflexivity. }
+        rewrite addi_nth by (rewrite ?embed_length; lia).
+        rewrite embed_nth by (try rewrite Hldm; assumption). rewrite End. reflexivity. }
+    pose proof (qmean_corners (mdim (dims g)) p G Hm' Hp) as EQ. rewrite EQ. unfold G. rewrite EA.
+    apply nondeg_true in End. rewrite Hlax in End.
+    apply cell_axis_mid; lia.
+  - (* a length-1 axis: all corners share the coordinate *)
+    apply nondeg_false in End. rewrite Hlax in End.
+    assert (Hl1 : length ax = 1).
+    { rewrite Forall_forall in Hax0. assert (In ax (g_axes g)) by (apply nth_In; exact Ha).
+      specialize (Hax0 ax H). lia. }
+    pose (K := nth i (nth a A []) 0%Q).
+    rewrite (map_ext_in _ (fun _ => K)).
+    2:{ intros off Hoff.
+        destruct (corner_inb (dims g) ci off Hd Hm' Hci Hoff) as [_ [_ He]].
+        rewrite points_nth by exact He. fold A.
+        pose proof (corners_ok _ Hm') as Hc. rewrite Forall_forall in Hc. destruct (Hc off Hoff) as [Hlo _].
+        rewrite coords_nth.
+        2:{ unfold A. rewrite <- (map_length (@length Q)), dir_axes_lengths. fold (dims g). rewrite Hldm. exact Ha. }
+        2:{ rewrite (inb_length _ _ He). unfold A.
+            rewrite <- (map_length (@length Q) (dir_axes _ _)), dir_axes_lengths. reflexivity. }
+        rewrite addi_nth by (rewrite ?embed_length; lia).
+        rewrite embed_nth by (try rewrite Hldm; assumption).
+        assert (nondeg (nth a (dims g) 0) = false) as -> by (apply nondeg_false; rewrite Hlax; lia).
+        rewrite Nat.add_0_r. reflexivity. }
+    pose proof (qmean_const (mdim (dims g)) K Hm') as EQ. rewrite EQ. unfold K. rewrite EA.
+    unfold cell_axis. assert (1 <? length ax = false) as -> by (apply Nat.ltb_ge; lia). reflexivity.
+Qed.
+
+(** * Cast to an unstructured grid *)
+Lemma points_length g : length (points g) = prod (dims g).
+Proof. unfold points. rewrite gen_points_length, dir_axes_lengths. reflexivity. Qed.
+
+Lemma data_size_loc g : data_size g = prod (loc_shape g).
+Proof.
+  unfold data_size. rewrite data_shape_loc. unfold mrev. destruct (g_rev g); [apply prod_rev|reflexivity].
+Qed.
+
+Theorem cast_data_points g n a :
+  wf_grid g -> mesh_dim g <= 3 -> n < data_size g -> a < gdim g ->
+  (nth a (nth n (u_data_points (to_unstructured g)) []) 0 == nth a (nth n (data_points g) []) 0)%Q.
+Proof.
+  intros Hwf Hm Hn Ha. unfold u_data_points, data_points, to_unstructured; simpl.
+  rewrite data_size_loc in Hn. unfold loc_shape in Hn.
+  destruct (g_pts g); [reflexivity|].
+  change (u_cell_centers _) with (node_centers g).
+  pose proof (unflat_inb (point_order g) _ _ Hn) as Hci.
+  rewrite <- (flat_unflat (point_order g) _ _ Hn).
+  symmetry. apply centers_mean; assumption.
+Qed.
+
+(** C14_unstructured_cast *)
+Theorem unstructured_cast g :
+  wf_grid g -> mesh_dim g <= 3 ->
+  let u := to_unstructured g in
+  u_points u = points g /\ u_cells u = cells g /\ u_types u = cell_types g /\
+  u_data_shape u = [data_size g] /\
+  (forall i a, inb (data_shape g) i -> a < gdim g ->
+     (nth a (nth (flat (g_c g) (data_shape g) i) (u_data_points u) []) 0 == nth a (coord_at g i) 0)%Q).
+Proof.
+  intros Hwf Hm u. repeat split.
+  - unfold u_data_shape, u; simpl. rewrite data_size_loc. unfold loc_shape.
+    destruct (g_pts g); f_equal; [apply points_length|].
+    unfold cells. apply gen_cells_length. apply dims_ge1. exact Hwf.
+  - intros i a Hi Ha. destruct (index_coord g i Hwf Hi) as [Hlt E].
+    rewrite <- E. apply cast_data_points; try assumption.
+    rewrite <- data_points_length by exact Hwf. exact Hlt.
+Qed.
+
+(** * The data_shape / data_size memo *)
+Definition memo_ok (r : rgrid) : Prop :=
+  (r_shape r = None \/ r_shape r = Some (data_shape (r_g r))) /\
+  (r_size r = None \/ r_size r = Some (data_size (r_g r))).
+
+Definition read_ok (x : mres * option grid) : Prop :=
+  match x with
+  | (RShape s, Some g) => s = data_shape g
+  | (RSize n, Some g) => n = data_size g
+  | (RPoints p, Some g) => p = data_points g
+  | (RShape _, None) | (RSize _, None) | (RPoints _, None) => False
+  | _ => True
+  end.
+
+Lemma nth_error_upd {A : Type} (st : list A) : forall k r x,
+  nth_error st k = Some r -> nth_error (upd k x st) k = Some x.
+Proof.
+  induction st as [|y st IH]; intros k r x H; destruct k; simpl in *; try discriminate; [reflexivity|].
+  eapply IH. exact H.
+Qed.
+
+Lemma Forall_upd {A : Type} (P : A -> Prop) (st : list A) : forall k x,
+  Forall P st -> P x -> Forall P (upd k x st).
+Proof.
+  induction st as [|y st IH]; intros k x H Hx; destruct k; simpl; inversion H; subst; constructor; auto.
+Qed.
+
+Lemma mstep_ok st o :
+  Forall memo_ok st ->
+  let k := match o with MShape k | MSize k | MPoints k | MSet k _ | MCopy k => k end in
+  Forall memo_ok (fst (mstep true st o)) /\
+  read_ok (snd (mstep true st o), option_map r_g (nth_error (fst (mstep true st o)) k)).
+Proof.
+  intros Hinv k. unfold mstep. fold k.
+  destruct (nth_error st k) as [r|] eqn:Er.
+  2:{ destruct o; simpl; split; auto. }
+  assert (Hr : memo_ok r).
+  { rewrite Forall_forall in Hinv. apply Hinv. eapply nth_error_In. exact Er. }
+  destruct Hr as [Hs Hz].
+  destruct o as [k0|k0|k0|k0 pts|k0]; simpl in k; subst k.
+  - assert (E : match r_shape r with Some s => s | None => data_shape (r_g r) end = data_shape (r_g r)).
+    { destruct Hs as [-> | ->]; reflexivity. }
+    rewrite E. simpl. split.
+    + apply Forall_upd; [exact Hinv|]. split; simpl; auto.
+    + rewrite (nth_error_upd st k0 r _ Er). simpl. reflexivity.
+  - assert (E : match r_shape r with Some s => s | None => data_shape (r_g r) end = data_shape (r_g r)).
+    { destruct Hs as [-> | ->]; reflexivity. }
+    destruct (r_size r) as [n|] eqn:Ez.
+    + simpl. split; [exact Hinv|]. rewrite Er. simpl.
+      destruct Hz as [Hz|Hz]; [discriminate|]. inversion Hz. reflexivity.
+    + rewrite E. simpl. split.
+      * apply Forall_upd; [exact Hinv|]. split; simpl; auto.
+      * rewrite (nth_error_upd st k0 r _ Er). simpl. reflexivity.
+  - simpl. split; [exact Hinv|]. rewrite Er. simpl. reflexivity.
+  - destruct (pts && g_esri (r_g r)); simpl.
+    + split; [exact Hinv|]. match goal with |- read_ok (_, option_map _ ?e) => destruct e end; exact I.
+    + split.
+      * apply Forall_upd; [exact Hinv|]. split; simpl; auto.
+      * match goal with |- read_ok (_, option_map _ ?e) => destruct e end; exact I.
+  - simpl. split.
+    + apply Forall_app. split; [exact Hinv|]. constructor; [split; assumption|constructor].
+    + match goal with |- read_ok (_, option_map _ ?e) => destruct e end; exact I.
+Qed.
+
+(** C14_location_current *)
+Theorem location_current_inv ops : forall st,
+  Forall memo_ok st -> Forall read_ok (mrun true st ops).
+Proof.
+  induction ops as [|o ops IH]; intros st Hinv; simpl; [constructor|].
+  pose proof (mstep_ok st o Hinv) as [H1 H2].
+  destruct (mstep true st o) as [st' x] eqn:E. simpl in H1, H2.
+  constructor; [exact H2|]. apply IH. exact H1.
+Qed.
+
+Theorem location_current g ops : Forall read_ok (mrun true [fresh g] ops).
+Proof.
+  apply location_current_inv. constructor; [|constructor]. split; left; reflexivity.
+Qed.
